@@ -139,6 +139,45 @@ HELPER_MODULE = ("from nada_dsl import *\n\n\n# a helper module of the user's pr
                  "def helper_mul(x, y):\n    return x * y\n")
 
 
+def tour_same_literal_twice():
+    """the same small literal written on two lines: each Literal operation is attributed to its own line"""
+    t = Tour("same-literal-twice")
+    t.L("from nada_dsl import *")
+    t.L("")
+    t.L("def nada_main():")
+    t.L("    p = Party(name='P0')", party="P0")
+    t.L("    a = SecretInteger(Input(name='a', party=p))", input="a")
+    t.L("    b = SecretInteger(Input(name='b', party=p))", input="b")
+    t.L("    x = a + Integer(1)", op="Addition", literal="1")
+    t.L("    y = b * Integer(1)", op="Multiplication", literal="1")
+    t.L("    z = y - UnsignedInteger(1).to_public() if False else y - Integer(1)", op="Subtraction", literal="1")
+    t.L("    return [Output(x + z, 'o', p)]", output="o", op_at="Addition")
+    return t
+
+
+# a program whose operations are created in two helper files that share their base name (two packages)
+PK_MAIN = ("from nada_dsl import *\nfrom pkga import add_a\nfrom pkgb import mul_b\n\n\ndef nada_main():\n    p = Party(name='P0')\n"
+           "    a = SecretInteger(Input(name='a', party=p))\n    b = SecretInteger(Input(name='b', party=p))\n"
+           "    x = add_a(a, b)\n    y = mul_b(x, b)\n    return [Output(y, 'o', p)]\n")
+EXTRA_FILES = {"two-helper-files-one-base-name": {
+    "pkga/__init__.py": "from nada_dsl import *\n\n# a comment line that shifts the offsets of this file\ndef add_a(u, v):\n    return u + v\n",
+    "pkgb/__init__.py": "from nada_dsl import *\n\ndef mul_b(u, v):\n    return u * v\n"}}
+# the text each operation's reference must delimit (whatever file table the MIR uses to say so)
+EXPECT_SLICES = {"two-helper-files-one-base-name": {"Addition": "    return u + v", "Multiplication": "    return u * v"}}
+
+
+def tour_pk():
+    t = Tour("two-helper-files-one-base-name")
+    for k, line in enumerate(PK_MAIN.rstrip("\n").split("\n")):
+        marks = {}
+        if "Party(" in line: marks = {"party": "P0"}
+        if "name='a'" in line: marks = {"input": "a"}
+        if "name='b'" in line: marks = {"input": "b"}
+        if "Output(" in line: marks = {"output": "o"}
+        t.L(line, **marks)
+    return t
+
+
 def all_cases():
     """(name, directory name, file name, text, tour)"""
     m, e, i = tour_main(), tour_edges(), tour_implicit_fn()
@@ -156,4 +195,9 @@ def all_cases():
          m.text().replace("\n", "  # separators: \x0c \x0b \x1c \x1d \x1e \x85 \u2028 \u2029 end\n", 1), m),
         # a file saved as UTF-8 with a byte order mark
         ("tour-bom", "progs", "tour_bom.py", "\ufeff" + m.text(), m),
+        # blanks and tabs at the end of lines: a reference still delimits the whole line
+        ("tour-trailing-whitespace", "progs", "tour_ws.py",
+         "\n".join((l + ("   " if k % 2 else " \t")) if l.strip() else l for k, l in enumerate(m.text().split("\n"))), m),
+        ("same-literal-twice", "progs", "lit2.py", tour_same_literal_twice().text(), tour_same_literal_twice()),
+        ("two-helper-files-one-base-name", "progs3", "c19_pk_main.py", PK_MAIN, tour_pk()),
     ]
